@@ -4,6 +4,7 @@ import (
 	"fmt"
 	"go/token"
 	"go/types"
+	"os"
 	"sort"
 	"strings"
 
@@ -384,6 +385,18 @@ func (f *Frame) applyContract(callee *ssa.Function, ct *FuncContract, args []Val
 			label = fmt.Sprint(k + 1)
 		}
 		name := f.callPath + vc.siteName("pre."+label+"@call "+callee.Name())
+		// a call right after a control-flow join: one obligation per incoming path (as for
+		// postconditions), so that the merged heap is never case-split by the solver
+		var paths []string
+		if f.depth == 0 && f.top && vc.curBlk >= 0 && vc.curBlk < len(f.fn.Blocks) && len(t) > 400 {
+			paths = f.splitConds(f.fn.Blocks[vc.curBlk])
+		}
+		if len(paths) > 1 && len(paths) <= 8 {
+			for pi, pc := range paths {
+				vc.oblige(fmt.Sprintf("%s/path#%d", name, pi+1), "pre", implies(and(pc, reach), t), preProps(rq, f), f.where(pos)+" / via "+f.splitWhere[pi], "requires "+rq.Src+" of "+ct.Key)
+			}
+			continue
+		}
 		vc.oblige(name, "pre", implies(reach, t), preProps(rq, f), f.where(pos), "requires "+rq.Src+" of "+ct.Key)
 	}
 	if ct.NoReturn {
@@ -401,6 +414,9 @@ func (f *Frame) applyContract(callee *ssa.Function, ct *FuncContract, args []Val
 	}
 	if ct.ModInferred {
 		eff := f.en.effects(callee)
+		if os.Getenv("GOVC_DEBUG_EFF") != "" {
+			fmt.Fprintf(os.Stderr, "effects of %s: all=%v comps=%v\n", funcKey(callee), eff.all, sortedKeys(eff.comps))
+		}
 		if eff.all {
 			f.frameCheckAll(reach, pos)
 			vc.havocAll(h)
